@@ -90,6 +90,10 @@ func s2RunSteps(c *fw.Case, prop string, p *engine.Profile, steps []engine.Step)
 	e.FixedPoint(j)
 	e.CancelAll()
 	s2Report(c, prop, e, j)
+	if e.Crashes > 0 {
+		c.Count("crashes_injected", int64(e.Crashes))
+		c.Count("executions_with_a_process_kill", 1)
+	}
 	return e
 }
 
